@@ -250,6 +250,8 @@ def render_v3000(mol, listing=None, style=None, with_model=False, split_override
         contents += bond_lines
         contents.append("END BOND")
     if st["trailer"]:
+        if nb and rnd.random() < 0.4:
+            contents.append(f"LINKNODE 1 3 2 {keys[order[0]]} {keys[order[-1]]} {keys[order[0]]} {keys[order[-1]]}")
         if rnd.random() < 0.5 and na >= 1:
             contents += ["BEGIN SGROUP", f"1 DAT 0 ATOMS=(1 {keys[order[0]]}) FIELDNAME=note FIELDDATA=x", "END SGROUP"]
         if rnd.random() < 0.5 and na >= 1:
@@ -259,6 +261,9 @@ def render_v3000(mol, listing=None, style=None, with_model=False, split_override
     lines = list(st["header"]) + ["  0  0  0     0  0            999 V3000"]
     for idx, c in enumerate(contents):
         structural = c.startswith(("BEGIN", "END", "COUNTS"))
+        if st["blanks"] > 1 and split_override is None:
+            # blank runs also before the first and after the last token of a line
+            c = " " * rnd.randint(0, st["blanks"] - 1) + c + " " * rnd.randint(0, st["blanks"] - 1)
         if split_override is not None and split_override[0] == idx % len(contents) and 1 <= split_override[1] < len(c) and len(c) <= 72:
             k = split_override[1]
             lines += [V30 + c[:k] + "-", V30 + c[k:]]
